@@ -136,6 +136,17 @@ class Ctx:
         self.records.append(rec)
         return rec["verdict"] == "proved"
 
+    def structural(self, name, ok, backend, detail=None):
+        """Obligation decided by a structural decision procedure other than SMT (e.g. Amaranth's netlist cycle check)."""
+        name = self._uniq(name)
+        rec = {"name": name, "cfg": self.cfg, "time_s": 0.0, "backend": backend, "verdict": "proved" if ok else "violated"}
+        if detail:
+            rec["detail"] = detail
+        if not ok:
+            rec["bounded_failures"] = [detail]
+        self.records.append(rec)
+        return ok
+
     def _replay(self, rec, hw, bad, assume, trace_k):
         k = trace_k if trace_k is not None else (12 if self.tier == "quick" else 30)
         t0 = time.time()
